@@ -1367,6 +1367,13 @@ fn hook_sched_point(tag: &'static str, a: u64) {
     }
     let e = exec();
     e.push_ev(tag, a, 0);
+    if tag == "wake" {
+        // C13: the descriptor an action writes its wake byte to must still be open (F_GETFD is a plain
+        // system call, fine inside a handler frame). Recorded without abandoning the execution.
+        if unsafe { libc::fcntl(a as i32, libc::F_GETFD) } == -1 && e.violation.is_none() {
+            e.violation = Some(format!("C13: a delivery writes its wake byte to descriptor number {} which is closed at that moment (the write end was closed while an action that uses it is still registered)", a));
+        }
+    }
     if tag == "cell_access" {
         e.access(a, true, tag);
     } else {
